@@ -6,5 +6,8 @@ CHECKS = {
     "C01": dict(level="model_checking", technique=SE,
                 text="Bounded symbolic execution: for each model shape of an explicit grammar, every feasible path of the six entry points is executed on z3 terms and each component is proved equal to an independent demand-driven evaluator for all parameter values, states and times.",
                 note=NOTE),
+    "C02": dict(level="model_checking", technique=SE + "; the dependency graph itself is a solver variable (membership bits of Dependency.required are z3 Bools)",
+                text="The real _sort_dependencies is executed on symbolic requirement sets: every graph over n<=4/5 components (hence every declaration order) is covered by path exploration; per path z3 proves that a returned order is a valid topological order, that MissingDependenciesError is raised iff a name is missing (and lists exactly those names), and CircularDependencyError iff the graph is complete and cyclic (unrolled transitive closure). API level: all 512 edge sets over 3 components through Model with symbolic values against the evaluator.",
+                note=NOTE),
 }
 NOT_APPLICABLE = {}
